@@ -45,6 +45,14 @@ import (
 // (c15JudgeHistory) refill the same xs/ys/weights arrays in place between
 // calls: a fit may depend only on the numbers it is handed, not on what the
 // same arrays held before.
+//
+// The classes lls-large, poly-large and loess-large run the same three
+// operations, judged by the same oracles, on 41 to a few thousand points: a
+// sum over the data points does not depend on how many of them there are, or
+// on the pieces in which an implementation chooses to accumulate it, and with
+// weights that differ from point to point (independent, piecewise constant,
+// trending, the tricube weights of a wide LOESS window) every weight must go
+// with its own point.
 
 const (
 	c15C       = 16.0
@@ -709,6 +717,30 @@ func c15WeightScaleLaw(w *mon.W, c c15Case, m *ref.LSQ, who string, first []floa
 	}
 }
 
+// c15SizeClasses records, from the inputs alone, in which band of sizes a
+// design of more than 40 points lies and whether its weights differ from one
+// another (only then does it matter which weight goes with which point).
+func c15SizeClasses(w *mon.W, op string, xs, ws []float64) {
+	n := len(xs)
+	if n <= 40 {
+		return
+	}
+	w.Hit("large-n(>40)")
+	w.Hit("large-n-" + op)
+	nonuni := false
+	for _, v := range ws {
+		nonuni = nonuni || v != ws[0]
+	}
+	w.HitIf(ws == nil, "large-n-unweighted")
+	w.HitIf(ws != nil && !nonuni, "large-n-weights-constant")
+	w.HitIf(nonuni, "large-n-weights-nonuniform")
+	w.HitIf(sort.Float64sAreSorted(xs), "large-n-xs-ascending")
+	for _, t := range []int{64, 128, 256, 512, 1024, 2048, 4096} {
+		w.HitIf(n > t, fmt.Sprintf("n>%d", t))
+		w.HitIf(nonuni && n > t, fmt.Sprintf("weights-nonuniform-n>%d", t))
+	}
+}
+
 // c15WellPosed decides, from the reference side only, whether the design is
 // inside the property's quantifier.
 func c15WellPosed(w *mon.W, m *ref.LSQ) bool {
@@ -839,6 +871,7 @@ func c15JudgeLLS(w *mon.W, c c15Case) {
 	w.HitIf(m.P >= 8, "p>=8")
 	w.HitIf(c15AllZero(ys), "lls-ys-all-zero")
 	c15ScaleClasses(w, c, ys, ws)
+	c15SizeClasses(w, "lls", xs, ws)
 
 	// the slice of basis functions: one per case, or, in a history, the one an
 	// earlier call with the same basis handed over
@@ -952,6 +985,7 @@ func c15JudgePoly(w *mon.W, c c15Case) {
 	w.HitIf(c.Domain != "", "shifted-domain")
 	w.HitIf(c15AllZero(ys), "poly-ys-all-zero")
 	c15ScaleClasses(w, c, ys, ws)
+	c15SizeClasses(w, "poly", xs, ws)
 
 	gx, gy, gw := c15Guards(c, xs, ys, ws)
 	var res fit.PolynomialRegressionResult
@@ -1294,6 +1328,14 @@ func c15JudgeLOESS(w *mon.W, c c15Case) {
 		w.HitIf(k < n && xs[k] == x, "query-at-datum")
 		w.HitIf(!qAmb && qe == deg+2, "loess-q==degree+2(interpolation)")
 		w.HitIf(!qAmb && qe == deg+2 && deg == 0, "loess-q==2-degree-0(nearest-point)")
+		if n > 40 {
+			// the local fit of this query is a weighted fit (tricube weights,
+			// all different) of imin(qe, qr) points or more
+			w.Hit("large-n-loess")
+			for _, t := range []int{64, 128, 256, 512, 1024, 2048} {
+				w.HitIf(imin(qe, qr) > t, fmt.Sprintf("loess-window>%d", t))
+			}
+		}
 		c15ScaleClasses(w, c, ys, nil)
 		w.HitIf(allZero, "loess-ys-all-zero")
 		if !allZero {
@@ -1478,6 +1520,18 @@ func c15Design(rng *mon.Rand, n, kind int) []float64 {
 			xs = append(xs, a+(b-a)*float64(i)/float64(n-1))
 		}
 	case 2: // dyadic grid k/16
+		if n > 65 {
+			// (large designs) the grid k/2^m with at least 2n points in [-2,2]
+			m := 5
+			for 4<<m+1 < 2*n {
+				m++
+			}
+			p := rng.Perm(4<<m + 1)
+			for i := 0; i < n; i++ {
+				xs = append(xs, float64(p[i]-2<<m)/float64(int(1)<<m))
+			}
+			break
+		}
 		p := rng.Perm(65)
 		for i := 0; i < n; i++ {
 			xs = append(xs, float64(p[i]-32)/16)
@@ -1535,6 +1589,88 @@ func c15Weights(rng *mon.Rand, n int) []float64 {
 		}
 	}
 	return ws
+}
+
+func c15WeightsFor(rng *mon.Rand, n int, opt c15Opt) []float64 {
+	if opt.large {
+		return c15WeightsLarge(rng, n)
+	}
+	return c15Weights(rng, n)
+}
+
+// c15WeightsLarge draws the weights of a large design: none (a quarter), or
+// positive weights that are independent log-uniform 1e-2..1e2, small integers,
+// constant on 2..8 stretches of consecutive points (each stretch its own
+// log-uniform level: batches of measurements of different quality), a smooth
+// trend along the order of the points (w = exp(a*i/n), up to a factor 1e3
+// from the first to the last point), or the same constant everywhere.
+func c15WeightsLarge(rng *mon.Rand, n int) []float64 {
+	kind := rng.Intn(12)
+	if kind < 3 {
+		return nil
+	}
+	ws := make([]float64, n)
+	switch {
+	case kind < 6:
+		for i := range ws {
+			ws[i] = rng.LogUniform(1e-2, 1e2)
+		}
+	case kind < 8:
+		cuts := []int{0, n}
+		for k := rng.Range(1, 7); k > 0; k-- {
+			cuts = append(cuts, rng.Intn(n))
+		}
+		sort.Ints(cuts)
+		for k := 0; k+1 < len(cuts); k++ {
+			lvl := rng.LogUniform(1e-2, 1e2)
+			for i := cuts[k]; i < cuts[k+1]; i++ {
+				ws[i] = lvl
+			}
+		}
+	case kind < 10:
+		a := rng.Sign() * rng.Uniform(0.5, 7)
+		b := rng.LogUniform(0.1, 10)
+		for i := range ws {
+			ws[i] = b * math.Exp(a*float64(i)/float64(n))
+		}
+	case kind == 10:
+		for i := range ws {
+			ws[i] = float64(rng.Range(1, 5))
+		}
+	default:
+		cst := rng.LogUniform(0.1, 10)
+		for i := range ws {
+			ws[i] = cst
+		}
+	}
+	return ws
+}
+
+// c15LargeN draws the size of a large design, 41..maxN: half of the sizes are
+// log-uniform, the others sit at and just beyond the round numbers at which an
+// implementation that works through the data in pieces would start a new piece
+// (a last piece of 1, 2, 3.. points, or a good part of a piece).
+func c15LargeN(rng *mon.Rand, maxN int) int {
+	n := 0
+	if rng.Bool() {
+		n = int(rng.LogUniform(41, float64(maxN)+1))
+	} else {
+		t := rng.PickI(64, 100, 128, 200, 250, 256, 500, 512, 1000, 1024, 1500, 2000, 2048, 3000, 4096)
+		switch rng.Intn(4) {
+		case 0:
+			n = t + rng.Range(-1, 3)
+		case 1:
+			n = t + rng.Range(1, 40)
+		case 2:
+			n = 2*t + rng.Range(-1, 3)
+		default:
+			n = t + rng.Range(1, t)
+		}
+	}
+	if n > maxN {
+		n = maxN - rng.Intn(maxN/4)
+	}
+	return imax(n, 41)
 }
 
 // c15PolyData fills ys from a polynomial of degree e. On the dyadic grid with
@@ -1642,6 +1778,10 @@ type c15Opt struct {
 	p      int    // this many functions
 	deg    int    // poly: this degree when hasDeg
 	hasDeg bool
+	// large: a case of the large-n classes (n is given): weights from
+	// c15WeightsLarge, and the points handed over in ascending order of x in a
+	// third of the cases
+	large bool
 }
 
 // c15ZeroYs turns a case into data that are identically zero (generated by
@@ -1747,6 +1887,9 @@ func c15GenLLS(rng *mon.Rand, i int, opt c15Opt) c15Case {
 		n = opt.n
 	}
 	xs := c15Design(rng, n, rng.Intn(4))
+	if opt.large && rng.Intn(3) == 0 {
+		sort.Float64s(xs)
+	}
 	var ys []float64
 	if rng.Intn(3) == 0 {
 		// a member of the span of the basis plus noise
@@ -1767,7 +1910,7 @@ func c15GenLLS(rng *mon.Rand, i int, opt c15Opt) c15Case {
 		ys = c15Smooth(rng, xs, "")
 	}
 	c.Xs, c.Ys = mon.Fs(xs), mon.Fs(ys)
-	if ws := c15Weights(rng, n); ws != nil {
+	if ws := c15WeightsFor(rng, n, opt); ws != nil {
 		c15ScaleWeights(rng, ws)
 		c.Ws = mon.Fs(ws)
 	}
@@ -1811,6 +1954,9 @@ func c15GenPoly(rng *mon.Rand, i int, opt c15Opt) c15Case {
 		kind = 2
 	}
 	xs := c15Design(rng, n, kind)
+	if opt.large && rng.Intn(3) == 0 {
+		sort.Float64s(xs)
+	}
 	if mode == 0 {
 		c.Domain = ""
 	}
@@ -1835,7 +1981,7 @@ func c15GenPoly(rng *mon.Rand, i int, opt c15Opt) c15Case {
 		ys = c15Smooth(rng, xs, c.Domain)
 	}
 	c.Xs, c.Ys = mon.Fs(xs), mon.Fs(ys)
-	if ws := c15Weights(rng, n); ws != nil {
+	if ws := c15WeightsFor(rng, n, opt); ws != nil {
 		c15ScaleWeights(rng, ws)
 		c.Ws = mon.Fs(ws)
 	}
@@ -1923,6 +2069,45 @@ func c15GenLOESS(rng *mon.Rand, i int) c15Case {
 	}
 	c.Span = mon.F(span)
 	c15LoessFill(rng, &c, n)
+	return c
+}
+
+// c15GenLoessLarge is c15GenLOESS on 41..maxN points: the window is a third
+// of the data or more in half of the cases, all of the data in an eighth.
+func c15GenLoessLarge(rng *mon.Rand, i, maxN int) c15Case {
+	c := c15Case{Op: "loess", Seed: rng.Uint64()}
+	deg := i % 3
+	c.Degree = deg
+	if rng.Intn(5) == 0 {
+		c.Domain = []string{"[10,12]", "[0,1e3]"}[rng.Intn(2)]
+	}
+	n := c15LargeN(rng, maxN)
+	q := rng.Range(deg+2, n)
+	if rng.Bool() {
+		q = rng.Range(n/3, n)
+	}
+	var span float64
+	switch rng.Intn(8) {
+	case 0:
+		span = 1
+	case 1, 2: // span*n an integer (up to what float64 can say)
+		span = float64(q) / float64(n)
+	default: // span*n strictly between q-1 and q
+		span = (float64(q) - rng.Uniform(0.05, 0.95)) / float64(n)
+	}
+	if span > 1 {
+		span = 1
+	}
+	c.Span = mon.F(span)
+	c15LoessFill(rng, &c, n)
+	if n > 500 && len(c.Qs) > 10 {
+		// (cost of the reference) ten of the queries, whichever
+		qs := append([]mon.F(nil), c.Qs...)
+		c.Qs = c.Qs[:0]
+		for _, k := range rng.Perm(len(qs))[:10] {
+			c.Qs = append(c.Qs, qs[k])
+		}
+	}
 	return c
 }
 
@@ -2175,7 +2360,7 @@ func c15SelfTest() error {
 }
 
 func c15Run(r *mon.Run) {
-	r.Rule("designs: 3..40 distinct x in [-2,2] (uniform, equispaced, dyadic grid, two clusters), for degree<=2 also mapped to [10,12] and [0,1e3]; weights nil / log-uniform 1e-2..1e2 / constant / small integers; LinearLeastSquares on monomials 0..6, {1,sin,cos}, {1,x,exp}, a 5-function mixed basis and the constant-free bases {x}, {x,x^2}, {sin,cos}, in a third of the cases with the terms reversed (constant last) or shuffled; in a third of the weighted cases the weight vector is multiplied by 10^U(-30,30), in a quarter of all cases ys by 2^k (|k|<=330) and, for polynomial designs on [-2,2], xs by 2^k (|k|<=16/degree; any for degree 0); every LinearLeastSquares / PolynomialRegression fit is repeated with all weights multiplied by a random 10^U(-30,30) (no weights: the constant weight) and must not move; PolynomialRegression degree 0..6 on exact, rounded and noisy polynomial data and smooth data; LOESS degree 0..2, ceil(span*n) from degree+2 (the farthest point has weight 0: interpolation of the degree+1 others) to n, sorted and shuffled input, queries inside, at data, at and beyond both ends and around window switches. LinearLeastSquares also with 8..12 functions of the Fourier basis {1, sin(k pi x/2), cos(k pi x/2)} and of the Chebyshev basis {T_k(x/2)} on n >= p+2 points; every 53rd (LOESS: 29th) random case has ys identically zero (exact minimiser 0) and every 29th LOESS case a stretch of >= ceil(span*n) zero ys with queries whose whole window lies on it; histories (single goroutine): two independent data sets of the same size written alternately (A,B,A,B) in place into the same xs/ys/weights arrays, each call judged against the reference of the numbers then in the arrays. Every LinearLeastSquares case hands the same slice of basis functions (half of them written as for i := range termOut, half ranging over xs) to both of its calls, a history to all calls with that basis, and evaluates its elements afterwards: they must still be the caller's functions, and must have been called with len(termOut) == len(xs). Every returned parameter slice is checked for memory shared with the earlier results the caller holds and overwritten (with its spare capacity) before the next call. LOESS also on abscissae in groups of 1..4 points at relative gaps 2^-20..2^-45 with windows inside one group (degree 0 mostly; cond 1). Designs with cond(X^T W X) > 1e10 are skipped. Non-trivial = hits a class; distinct by hash of (op, basis, degree, xs, ys, weights, span, order).")
+	r.Rule("designs: 3..40 distinct x in [-2,2] (uniform, equispaced, dyadic grid, two clusters), for degree<=2 also mapped to [10,12] and [0,1e3]; weights nil / log-uniform 1e-2..1e2 / constant / small integers; LinearLeastSquares on monomials 0..6, {1,sin,cos}, {1,x,exp}, a 5-function mixed basis and the constant-free bases {x}, {x,x^2}, {sin,cos}, in a third of the cases with the terms reversed (constant last) or shuffled; in a third of the weighted cases the weight vector is multiplied by 10^U(-30,30), in a quarter of all cases ys by 2^k (|k|<=330) and, for polynomial designs on [-2,2], xs by 2^k (|k|<=16/degree; any for degree 0); every LinearLeastSquares / PolynomialRegression fit is repeated with all weights multiplied by a random 10^U(-30,30) (no weights: the constant weight) and must not move; PolynomialRegression degree 0..6 on exact, rounded and noisy polynomial data and smooth data; LOESS degree 0..2, ceil(span*n) from degree+2 (the farthest point has weight 0: interpolation of the degree+1 others) to n, sorted and shuffled input, queries inside, at data, at and beyond both ends and around window switches. LinearLeastSquares also with 8..12 functions of the Fourier basis {1, sin(k pi x/2), cos(k pi x/2)} and of the Chebyshev basis {T_k(x/2)} on n >= p+2 points; every 53rd (LOESS: 29th) random case has ys identically zero (exact minimiser 0) and every 29th LOESS case a stretch of >= ceil(span*n) zero ys with queries whose whole window lies on it; histories (single goroutine): two independent data sets of the same size written alternately (A,B,A,B) in place into the same xs/ys/weights arrays, each call judged against the reference of the numbers then in the arrays. Every LinearLeastSquares case hands the same slice of basis functions (half of them written as for i := range termOut, half ranging over xs) to both of its calls, a history to all calls with that basis, and evaluates its elements afterwards: they must still be the caller's functions, and must have been called with len(termOut) == len(xs). Every returned parameter slice is checked for memory shared with the earlier results the caller holds and overwritten (with its spare capacity) before the next call. LOESS also on abscissae in groups of 1..4 points at relative gaps 2^-20..2^-45 with windows inside one group (degree 0 mostly; cond 1). Large designs: LinearLeastSquares (all bases; Fourier/Chebyshev up to 800 points), PolynomialRegression degree 0..6 and LOESS degree 0..2 on 41..3000 (thorough 6000; LOESS half of that) distinct x of the same four kinds of design (dyadic grid k/2^m), half of the sizes log-uniform and half at, just beyond or well beyond 64, 100, 128, .., 2048, 3000, 4096 and their doubles, a third handed over in ascending order of x; weights nil (a quarter) / independent log-uniform 1e-2..1e2 / small integers / constant on 2..8 stretches of consecutive points / a smooth trend exp(a*i/n) along the order of the points / constant; LOESS windows of a third of the data or more in half of the cases (tricube weights over hundreds to thousands of points), ten queries per case above 500 points; same oracles and tolerances (these grow with n+p). Designs with cond(X^T W X) > 1e10 are skipped. Non-trivial = hits a class; distinct by hash of (op, basis, degree, xs, ys, weights, span, order).")
 	r.Assume("reference: exact minimiser by 384-bit Gaussian elimination of the normal equations formed from the float64 inputs, cross-checked at start-up against gonum Householder QR and the published NIST LOWESS example; condition numbers from gonum/mat SVD of X^T W X",
 		"the basis functions handed to LinearLeastSquares are pure; their float64 values define the problem",
 		"tolerances: backward-stable normal-equations bound with C=16 (see the head of props/c15.go)")
@@ -2191,7 +2376,10 @@ func c15Run(r *mon.Run) {
 		"lls-term-ranges-over-termOut", "lls-term-ranges-over-termOut(n%4!=0)", "lls-terms-slice-reused", "lls-terms-slice-probed-after-call",
 		"history-terms-slice-reused", "history-terms-slice-reused-weighted",
 		"loess-window-of-near-coincident-x", "loess-window-of-near-coincident-x-no-tie", "loess-window-width<1e-10|x|",
-		"result-checked-for-memory-shared-with-earlier-result", "fit-after-earlier-result-overwritten", "zero-ys-fit-after-earlier-result-overwritten")
+		"result-checked-for-memory-shared-with-earlier-result", "fit-after-earlier-result-overwritten", "zero-ys-fit-after-earlier-result-overwritten",
+		"large-n-lls", "large-n-poly", "large-n-loess", "large-n-unweighted", "large-n-weights-nonuniform", "large-n-xs-ascending",
+		"n>2048", "weights-nonuniform-n>64", "weights-nonuniform-n>128", "weights-nonuniform-n>256", "weights-nonuniform-n>512", "weights-nonuniform-n>1024", "weights-nonuniform-n>2048",
+		"loess-window>64", "loess-window>128", "loess-window>256", "loess-window>512", "loess-window>1024")
 	if err := c15SelfTest(); err != nil {
 		r.Inconclusive("reference self-test failed: " + err.Error())
 		return
@@ -2242,6 +2430,30 @@ func c15Run(r *mon.Run) {
 		c15Judge(w, c)
 		w.Distinct(c15Hash(c))
 	})
+	// large designs: the same three operations on 41 to a few thousand points
+	// (sizes log-uniform and at / just beyond round numbers), judged by the
+	// same oracles against the same 384-bit minimiser
+	maxN := r.Pick(3000, 6000)
+	r.Parallel("lls-large", r.Pick(150, 1500), func(w *mon.W, i int) {
+		opt := c15Opt{n: c15LargeN(w.Rng, maxN), large: true}
+		if i%10 == 9 {
+			opt.basis, opt.p = []string{"fourier", "cheb"}[(i/10)%2], 8+(i/20)%5
+			opt.n = imin(opt.n, 800)
+		}
+		c := c15GenLLS(w.Rng, i, opt)
+		c15Judge(w, c)
+		w.Distinct(c15Hash(c))
+	})
+	r.Parallel("poly-large", r.Pick(150, 1500), func(w *mon.W, i int) {
+		c := c15GenPoly(w.Rng, i, c15Opt{n: c15LargeN(w.Rng, maxN), large: true})
+		c15Judge(w, c)
+		w.Distinct(c15Hash(c))
+	})
+	r.Parallel("loess-large", r.Pick(60, 600), func(w *mon.W, i int) {
+		c := c15GenLoessLarge(w.Rng, i, maxN/2)
+		c15Judge(w, c)
+		w.Distinct(c15Hash(c))
+	})
 	// histories run on one goroutine with nothing else in flight: whatever the
 	// library may remember between two calls is not disturbed by other cases
 	for _, op := range []string{"lls", "poly", "loess"} {
@@ -2256,17 +2468,17 @@ func c15Run(r *mon.Run) {
 	// enumerated LOESS space: every (n, degree, q) with q >= degree+2 for
 	// small n on an irregular grid, queries at every datum, at every window
 	// switch point and just either side of it
-	maxN := r.Pick(14, 24)
+	maxEnum := r.Pick(14, 24)
 	type ndq struct{ n, d, q int }
 	var space []ndq
-	for n := 3; n <= maxN; n++ {
+	for n := 3; n <= maxEnum; n++ {
 		for d := 0; d <= 2; d++ {
 			for q := d + 2; q <= n; q++ {
 				space = append(space, ndq{n, d, q})
 			}
 		}
 	}
-	r.Exhaustive(fmt.Sprintf("LOESS: all (n, degree, q=ceil(span*n)) with 3<=n<=%d, degree 0..2, degree+2<=q<=n; queries at every datum, every window switch point and 1e-6 either side", maxN))
+	r.Exhaustive(fmt.Sprintf("LOESS: all (n, degree, q=ceil(span*n)) with 3<=n<=%d, degree 0..2, degree+2<=q<=n; queries at every datum, every window switch point and 1e-6 either side", maxEnum))
 	r.Parallel("loess-enum", len(space), func(w *mon.W, i int) {
 		s := space[i]
 		rng := w.Rng
